@@ -351,3 +351,58 @@ Theorem C03_emptied_containers_example :
 Proof. exact apply_example. Qed.
 Print Assumptions C03_emptied_containers_example.
 
+
+(* ---- the same along MULTI-VERSION histories under the identity converter (Proofs/MultiVersion.v,
+   corollaries of the transparency theorem of C20): every operation of the history at its own
+   version label (one schema behind every label, any visiting order of the versions), the
+   last operation at an arbitrary label; updates inside the history submit neither empty
+   lists nor duplicate members (the restriction of Proofs/Transparent.v). ---- *)
+From Coq Require Import List ZArith String Bool Arith Lia Permutation.
+From SMD Require Import Model.Value Model.Order Model.PathElem Model.PathSet Model.Schema Model.Walk
+  Model.Validate Model.FieldSet Model.Remove Model.Merge Model.Compare Model.Matcher Model.Reconcile
+  Model.Updater
+  Spec.PathsAsSets Spec.RefValid Spec.Resolve Spec.Agree Spec.RefDiff Spec.Examples
+  Proofs.OrderLaws Proofs.PathSetLaws Proofs.SchemaOk Proofs.FieldSetBase Proofs.FieldSetPaths
+  Proofs.FieldSetWf Proofs.FieldSetLaws Proofs.RemoveAbsent Proofs.RemoveWf Proofs.ResolveLaws
+  Proofs.UpdaterLaws Proofs.UpdaterLaws2 Proofs.MergeLaws Proofs.MergeAgree
+  Proofs.RemoveFrame Proofs.EnLaws Proofs.NodeSet Proofs.KeyFields Proofs.VeqbResolve
+  Proofs.SetCheckers Proofs.ApplyEffect Proofs.Visible Proofs.ApplyInv Proofs.History
+  Proofs.TransparentPrune Proofs.TransparentCore Proofs.TransparentStep Proofs.Transparent
+  Proofs.Reapply Proofs.ConflictsApply Proofs.NoOtherFailure Proofs.RecordsHistory
+  Proofs.MultiVersionBase.
+From SMD Require Proofs.ApplyPrune.
+From SMD Require Import Proofs.MultiVersion.
+Theorem C03_along_multi_version_histories :
+  forall (c : config) (R : typeref -> Prop) (ver : string) (ops : list vhop)
+           (v mgr : string) (cfg : value) (force : bool) (o : option tv) 
+           (mf' : managed) (last : mrec) (fscfg : pset) (p : path),
+         setting_ok c R ver ->
+         one_schema c ver ->
+         order_perm c ->
+         Forall (vop_ok c ver) ops ->
+         op_ok c ver (HApply mgr cfg force) ->
+         let live := snd (fst (vrun c ver ops)) in
+         let mf := snd (vrun c ver ops) in
+         apply_op c (fst (vrun c ver ops)) (v, cfg) v mf mgr force = UOk (o, mf') ->
+         mf_get mgr mf = Some last ->
+         to_field_set (schema_of c ver) (tr_of c ver) cfg = Some fscfg ->
+         wf_path p = true ->
+         p <> nil ->
+         ps_has p (mr_set last) = true ->
+         (forall q : path,
+          In q (map fst (nodes (schema_of c ver) (tr_of c ver) cfg)) -> is_prefix p q = false) ->
+         ps_has p (ps_en (schema_of c ver) (tr_of c ver) (ApplyPrune.others_union mgr mf)) =
+         false ->
+         (present (schema_of c ver) (tr_of c ver) live p = true ->
+          exists (r : path) (tr' : typeref) (x : value),
+            wf_path r = true /\
+            resolve_path (schema_of c ver) (tr_of c ver) live (p ++ r) = Some (RNode tr' x) /\
+            leafy (schema_of c ver) tr' x /\ x <> VList nil) ->
+         present (schema_of c ver) (tr_of c ver)
+           match o with
+           | Some t => snd t
+           | None => live
+           end p = false.
+Proof. exact mv_apply_removes_abandoned. Qed.
+Print Assumptions C03_along_multi_version_histories.
+
